@@ -57,13 +57,13 @@ class MultiStepUpdate(_MsBase):
             c.u[i] = mk.vec(f'cache.u{i}')
             c.f[i] = mk.vec(f'cache.f{i}', 'f')
             # equidistant history ending at the start of this step
-            c.t[i] = L.time - (N - 1 - i) * L.dt
+            c.t[i] = L.status.time - (N - 1 - i) * L.params.dt
         st = State(L=L, N=N, cu=[cp(x) for x in c.u], cf=[cp(x) for x in c.f], ct=list(c.t), call=sw.update_nodes)
         return st
 
     def post(self, st, old, result, exc):
         L, N, sw, P = st.L, st.N, st.L.sweep, st.L.prob
-        dt, tn = L.dt, L.time + L.dt
+        dt, tn = L.params.dt, L.status.time + L.params.dt
         yield 'returns_normally', exc is None
         if exc is not None:
             return
@@ -114,8 +114,8 @@ class MultiStepPredict(_MsBase):
             yield 'non_empty_cache_left_alone', all((c.t[i] is None) == (st.ct[i] is None) for i in range(N)) and bool(And(*[And(veq(c.u[i], st.cu[i]), veq(c.f[i], st.cf[i]), seq(c.t[i], st.ct[i])) for i in range(N) if st.ct[i] is not None])) is True and not P.evals
         else:
             er = P.evals[0] if len(P.evals) == 1 else None
-            yield 'empty_cache:one_evaluation_at_u0_and_step_start', er is not None and bool(veq(er.u, L.u[0])) is True and bool(seq(er.t, L.time)) is True
-            yield 'empty_cache:receives_the_initial_condition', And(veq(c.u[N - 1], L.u[0]), veq(c.f[N - 1], L.f[0]), seq(c.t[N - 1], L.time)) and all(x is None for x in c.t[:-1])
+            yield 'empty_cache:one_evaluation_at_u0_and_step_start', er is not None and bool(veq(er.u, L.u[0])) is True and bool(seq(er.t, L.status.time)) is True
+            yield 'empty_cache:receives_the_initial_condition', And(veq(c.u[N - 1], L.u[0]), veq(c.f[N - 1], L.f[0]), seq(c.t[N - 1], L.status.time)) and all(x is None for x in c.t[:-1])
         yield 'unlocked_and_updated', L.status.unlocked is True and L.status.updated is True
 
     def canary(self, st, old, result, exc):
@@ -140,7 +140,7 @@ class AM2Start(_MsBase):
         if exc is not None:
             return
         rec = P.find_solve(L.u[1])
-        yield 'trapezoidal_step', rec is not None and bool(veq(rec.rhs, st.u0 + L.dt / 2 * st.f0)) is True and bool(seq(rec.factor, L.dt / 2)) is True and bool(seq(rec.t, L.time + L.dt)) is True
+        yield 'trapezoidal_step', rec is not None and bool(veq(rec.rhs, st.u0 + L.params.dt / 2 * st.f0)) is True and bool(seq(rec.factor, L.params.dt / 2)) is True and bool(seq(rec.t, L.status.time + L.params.dt)) is True
 
     def canary(self, st, old, result, exc):
         rec = st.L.prob.find_solve(st.L.u[1])
